@@ -344,6 +344,16 @@ func (g *c12Gen) program(class string) c12Program {
 		}
 		p.SQL = fmt.Sprintf("SELECT %s, COUNT(*) AS c, SUM(v) AS sv, AVG(f) AS af, MIN(id) AS mi, LISTAGG(id, ':') AS l FROM %s GROUP BY %s%s ORDER BY %s",
 			key, t.Name, key, g.pick("", " HAVING COUNT(*) > 3"), key)
+	case "distinct-aggregates-then-keys":
+		// aggregates with DISTINCT build comparison keys through the pooled key buffers; what follows in the same
+		// process (or, with hundreds of groups, runs at the same time) builds keys in several goroutines
+		if g.r.Intn(2) == 0 {
+			p.Writes = true
+			p.SQL = fmt.Sprintf("SELECT COUNT(DISTINCT k), COUNT(DISTINCT s) FROM %s; SELECT k, COUNT(*) AS c FROM %s GROUP BY k ORDER BY k; SELECT DISTINCT n, s FROM %s ORDER BY n, s; CREATE TABLE `out.csv` AS SELECT k, n, COUNT(*) AS c FROM %s GROUP BY k, n ORDER BY k, n",
+				t.Name, t.Name, t.Name, t.Name)
+		} else {
+			p.SQL = fmt.Sprintf("SELECT id %% 400 AS g, COUNT(DISTINCT k) AS dk, LISTAGG(DISTINCT s, '|') WITHIN GROUP (ORDER BY s) AS ls, SUM(DISTINCT v) AS sv FROM %s GROUP BY id %% 400 ORDER BY g", t.Name)
+		}
 	case "group":
 		key := g.pick("k", "k, n", "s", "n, s")
 		p.SQL = fmt.Sprintf("SELECT %s, COUNT(*) AS c, SUM(v) AS sv, MIN(id) AS mi FROM %s GROUP BY %s", key, t.Name, key)
@@ -649,7 +659,7 @@ func runC12(seed int64, tier string, out string) {
 		c12WriteOtherFormats(master.Dir, s, seed*1000+200+int64(i))
 	}
 
-	classes := []string{"where", "where-error", "order", "distinct", "aggregate-all", "group-ordered", "group-ordered-incomparable", "group", "join", "join", "join-big", "lateral", "subquery", "subquery-many-refs",
+	classes := []string{"where", "where-error", "order", "distinct", "aggregate-all", "distinct-aggregates-then-keys", "group-ordered", "group-ordered-incomparable", "group", "join", "join", "join-big", "lateral", "subquery", "subquery-many-refs",
 		"analytic", "analytic", "analytic-ties", "analytic-ties", "setop", "ltsv", "jsonl", "insert-select", "update", "delete", "create-as", "alter-add", "mixed", "replace-one", "replace", "replace-dup-keys"}
 	rounds, reps := 6, 3
 	if tier == "thorough" {
